@@ -982,8 +982,14 @@ def main(run):
                 'pre-state enumeration: every combination of (absent|file|directory) x (no row|pending|finished) per name; a '
                 '>500-file directory for the batch branch; name strings one edit away from a blob hash. distinct = distinct '
                 'case content; non-trivial = more than one kind of operation.')
+    import time as _time
+    marks = [('start', _time.time())]
+
+    def mark(name):
+        marks.append((name, _time.time()))
     for nm, case in load_corpus():
         check_case(run, model, case, 'corpus:' + nm)
+    mark('corpus')
     # all nine (disk, row) combinations in one directory, then every pair (quick) / triple (thorough)
     combos = [(d, r) for d in '-fd' for r in '-pF']
     check_case(run, model, prestate_case([(hname(i), d, r) for i, (d, r) in enumerate(combos)]), 'prestate-all9')
@@ -999,23 +1005,30 @@ def main(run):
         for a in combos:
             for b in combos[::2]:
                 check_case(run, model, prestate_case([(hname(0), *a), (hname(1), *b)]), 'prestate-2')
+    mark('prestates')
     check_case(run, model, big_case(vlib.scaled(run.tier, 570, 1700)), 'batch')
+    mark('batch')
     # one stream with the real 2 MiB chunking
     real = {'blobs': {}, 'streams': [make_stream(rng, 0, real=True)],
             'ops': [{'op': 'publish', 'stream': 0}, {'op': 'restart', 'mode': 'new'},
                     {'op': 'delete', 'hs': [{'stream': 0, 'blob': 1}], 'from_db': False},
                     {'op': 'restart', 'mode': 'new'}, {'op': 'restart', 'mode': 'new'}]}
     check_case(run, model, real, 'real-chunk')
+    mark('real-chunk')
     for _ in range(vlib.scaled(run.tier, 3, 60)):
         check_case(run, model, gen_kill_case(rng), 'real-kill')
+    mark('real-kill')
     n_hist = vlib.scaled(run.tier, 90, 2500)
     for i in range(n_hist):
         nops = rng.choice([6, 12, 20, 30, 40])
         check_case(run, model, gen_case(rng, nops, with_dirs=(i % 8 == 7), inject=(i % 3 != 0)), 'generated')
+    mark('histories')
     for s in FIXED_NAMES:
         check_name(run, model, s, 'fixed')
     for s in gen_name_strings(rng, vlib.scaled(run.tier, 3000, 60000)):
         check_name(run, model, s, 'generated')
+    mark('names')
+    run.notes.append({'seconds_per_section': {b[0]: round(b[1] - a[1], 1) for a, b in zip(marks, marks[1:])}})
     run.partial = []
     run.supporting = {'not_modelled': 'config.save_blobs=False (BlobBuffer), blob lengths in the table, content hashes of files '
                                       '(setup never reads file content), non-ASCII and non-regular-file directory entries other '
